@@ -10,14 +10,14 @@ from . import native, replaylib, assemble
 VERIF = assemble.VERIF
 
 NATIVE = {
-    "C01": ["e2e.list_model", "e2e.list_model_pages", "bitfield.ranges", "bitfield.open", "bitfield.from_data", "oplog.open_js_layout"],
+    "C01": ["e2e.list_model", "e2e.list_model_pages", "bitfield.ranges", "bitfield.open", "bitfield.from_data", "bitfield.searches", "oplog.open_js_layout"],
     "C02": ["e2e.crash_prefixes", "e2e.crash_read_only", "oplog.open_js_layout"],
     "C03": ["proofs.honest_replication", "dep.flat_tree_model"],
     "C04": ["proofs.arbitrary_proofs_refused", "proofs.altered_proofs_refused", "dep.flat_tree_model"],
     "C05": ["merkle.reference_tree", "dep.flat_tree_model"],
     "C06": ["oplog.open_js_layout", "bitfield.open", "bitfield.from_data", "merkle.reference_tree"],
     "C07": ["e2e.torn_writes", "oplog.open_js_layout"],
-    "C08": ["bitfield.ranges", "bitfield.open", "bitfield.from_data", "e2e.list_model_pages", "e2e.list_model", "e2e.replica_contiguous"],
+    "C08": ["bitfield.ranges", "bitfield.open", "bitfield.from_data", "e2e.list_model_pages", "e2e.list_model", "e2e.replica_contiguous", "bitfield.searches"],
     "C09": ["proofs.requests_no_panic", "proofs.requests_exhaustive_small", "proofs.arbitrary_proofs_refused", "dep.flat_tree_model"],
     "C10": ["e2e.fault_injection"],
     "C11": ["codec.wire_reference"],
